@@ -33,11 +33,11 @@ M1 == Mp("B2", "lib", 32, 8, 0)
 LF   == Loc(M0, 3, <<Ln(F, 10, 1)>>, FALSE)
 LG   == Loc(M0, 4, <<Ln(G, 20, 1)>>, FALSE)
 LH   == Loc(M1, 5, <<Ln(H, 30, 1)>>, FALSE)
-LGF  == Loc(M0, 6, <<Ln(G, 21, 1), Ln(F, 11, 1)>>, FALSE)             \* g inlined into f
+LGF  == Loc(M0, 6, <<Ln(G, 21, 2), Ln(F, 11, 3)>>, FALSE)             \* g inlined into f
 L3   == Loc(M0, 7, <<Ln(H, 31, 1), Ln(G, 22, 1), Ln(F, 12, 1)>>, FALSE)
 LU   == Loc(M0, 8, <<>>, FALSE)                                       \* unsymbolised
 LF2  == Loc(M1, 9, <<Ln(F2, 10, 1)>>, FALSE)
-LFb  == Loc(M0, 10, <<Ln(F, 15, 1)>>, FALSE)                          \* same function, other line
+LFb  == Loc(M0, 10, <<Ln(F, 15, 2)>>, FALSE)                          \* same function, other line
 LFF  == Loc(M0, 11, <<Ln(F, 13, 1), Ln(F, 14, 1)>>, FALSE)            \* f inlined into f (recursion inside a location)
 
 LocsQ == <<LF, LG, LGF, LU, LF2, LFb>>
@@ -78,7 +78,9 @@ Cfgs == IF Tier = "quick"
         THEN { MkCfg(g, ni, PlainW) : g \in Grans, ni \in BOOLEAN }
              \cup { MkCfg(g, FALSE, w) : g \in {"functions", "lines"}, w \in WeightCfgs }
              \cup { MkCfg("addresses", FALSE, [si |-> 2, mean |-> TRUE, troot |-> <<>>, tleaf |-> <<>>]) }   \* callgrind is written at this granularity
+             \cup { MkCfg(g, FALSE, PlainW) : g \in {"lines+cols", "functions+cols", "files+cols"} }
         ELSE { MkCfg(g, ni, w) : g \in Grans, ni \in BOOLEAN, w \in WeightCfgs }
+             \cup { MkCfg(g, ni, PlainW) : g \in {"lines+cols", "functions+cols", "files+cols"}, ni \in BOOLEAN }
 
 GuardProfiles == { << Smp(<<LF, LG, LF>>, <<1, 3>>, <<>>, <<>>), Smp(<<LG, LF, LG, LF>>, <<2, 2>>, <<>>, <<>>) >> }
 Cases == IF Tier = "guard" THEN { [samples |-> p, cfg |-> MkCfg("functions", FALSE, PlainW)] : p \in GuardProfiles }
